@@ -220,6 +220,9 @@ class PGModel:
             for name in JSON_PROPERTY_NAMES:
                 v = p.get(name)
                 if v is not None and len(v) > 0 and v != 'None':
+                    if not isinstance(v, str):
+                        # a 'combine' merge left a list under a JSON-typed name: both backends hand it to json.loads
+                        raise ModelExc('other:TypeError')
                     try:
                         json.loads(v)
                     except json.decoder.JSONDecodeError:
